@@ -18,15 +18,37 @@ suite `backend` (C19): one schema, one list of records, every entry point of the
     (a) every path has the outcome class of `to_marrow` — except where the schema holds a data type the back
         end does not offer (documented gap table below, tagged `gap:<type>`);
     (b) `Spec.decodeAll` of every path's arrays equals that of the marrow arrays, column by column;
-    (c) every reader entry point returns the same `Dump` for every back end's arrays;
+    (c) every reader entry point returns the same `Dump` for every back end's arrays — ten keys of `de`: `marrow`,
+        `d_marrow`, `arrow`, `d_arrow`, `arrow_refs`, `batch`, `d_batch`, `batch_parts`, `arrow2`, `d_arrow2` (those present
+        in the case; tag `read:<class>:<number present>`);
+    (c') a reader given a different number of fields and arrays refuses, in every family (`de_mismatch`);
     (d) a record batch carries exactly the given fields (name, type, nullability, metadata — compared as
         `SaModel.Field` values), no schema metadata, one column per field, the pushed number of rows.
-  agree (correspondence of `SaModel/Backend/Adapters.lean` with the code):
+    The paths of (a), (b), (d): the four one-shot functions, four straight `ArrayBuilder` paths (`b_*`), the crossed ones
+    (`x:<from>><to>`) and the REUSED builders (`reuse:<from>><first>><to>`: rows, a first build, the same rows again, the
+    build that is compared) of `cross_out`.
+    top       (`top`, `top_out`) the same rows as another top-level `items` value (29 forms, harness `TOP_FORMS`) through the
+              one-shot functions and the `Serializer` wrapper (borrowed / owned builder): same accept / refuse and same
+              logical content as `to_marrow` on that value (outside the gap table) — C19; where a form is accepted the arrays
+              are physically those of the plain sequence, a value that is no collection of records is refused — C10
+              (`ArrayBuilder::extend` included).
+    fail_hist one builder per finisher: the rows pushed one by one with a refused record in the middle (`bad`, `bad_at`), a
+              build, another push, another build, every outcome recorded.  C19: the four finishers agree operation by
+              operation; C10: no build succeeds on a builder in which a push failed; C16: no panic after a failed push;
+              C03: every build that returns arrays returns one array per field, each of exactly the number of rows pushed
+              successfully since the previous successful build (columns of a field holding a `FixedSizeBinary(0)` skipped:
+              known finding C03-fixed-size-binary-0, decided by the build suite) and, through `to_marrow` on a schema
+              without `FixedSizeBinary(0)`, `Spec.WF` of its field.  This clause is ALL the suite decides for C03: arrow-rs
+              `validate_full` and `data_type()` of the arrow / arrow2 outputs are read by the build suite
+              (`Driver.Suites.Build.backendC03`), not here.
+  agree (correspondence of `SaModel/Backend/Adapters.lean`, `SaModel/Backend/History.lean` with the code):
     the adapter model instantiated with the builder model as core and "conversion = identity on the wire form,
     failing on gap types" predicts class, decoded content and batch schema of `to_arrow`, `to_arrow2`,
     `to_record_batch`; `from_*` instantiated with an oracle core (the recorded `from_marrow` results) predicts
-    the readers; the adapter equations evaluated on the real crate (`via`) hold physically; marrow's field
-    conversions round trip (hypothesis `hFRT`).
+    the readers, count mismatches included (`Core.counted` for the marrow family); `Backend.runHistory` predicts the second
+    build of every reused builder, `Backend.runHistoryG` (the builder with its poisoned flag) every outcome of `fail_hist`;
+    `Build.serializeWith` / `Build.extend` predict class, arrays and error annotations per top-level form; the adapter
+    equations evaluated on the real crate (`via`) hold physically; marrow's field conversions round trip (hypothesis `hFRT`).
   C16: no panic anywhere, third-party conversions included.
 This suite IS the validation of the hypotheses `hA`, `hB`, `hFRT` of Props/C19.lean (sampling, not proof).
 -/
@@ -209,11 +231,11 @@ def handle (j : Json) : Except String Verdict := do
   if fields.any (fun f => !f.metadata.isEmpty) then tags := "top-metadata" :: tags
   let c16 := if hasPanic ser || hasPanic de || hasPanic via || hasPanic (get j "cross_out") || hasPanic (get j "fields_rt") then "fail" else "pass"
   -- records that are not the call stream of any `Serialize` implementation (a map value without its key, …) are
-  -- outside the quantifier of the CONTENT clauses of C01/C02, but not of this property any more: since repo fix eafdf15 a
-  -- Map builder refuses the streams that do not alternate and whatever `to_marrow` accepts is well formed (`C03_wf`
-  -- without `rawOK`), so the back ends must agree on them like on any other record (before the fix `to_marrow`
-  -- returned a Map array with keys and values of different lengths, `to_arrow` failed and `to_arrow2` panicked:
-  -- finding C16-map-key-value-alternation)
+  -- outside the quantifier of the CONTENT clauses of C01/C02, but inside this property: a Map builder refuses the
+  -- streams that do not alternate (repo fix eafdf15) and whatever `to_marrow` accepts is well formed
+  -- (`Props.C01.C03_wf'` has no hypothesis on raw call streams), so the back ends must agree on them like on any other
+  -- record (on the unrepaired crate `to_marrow` returned a Map array with keys and values of different lengths, `to_arrow`
+  -- failed and `to_arrow2` panicked: finding C16-map-key-value-alternation)
   if (rows.map (interpRow ext fields)).any isMalformed || rows.any containsMalformed then
     tags := "malformed-stream" :: tags
   -- the first failure of each kind
